@@ -53,7 +53,7 @@ def verify(prop, src, name):
             meta["steps"]["apply_err"] = ra.stderr[-500:]
             return meta, False
         # 3. build + ctest
-        rb = sh("cmake -S %s -B %s/b -G Ninja -DCMAKE_BUILD_TYPE=RelWithDebInfo >/dev/null && cmake --build %s/b 2>&1 | tail -3" % (wt, bdir, bdir), timeout=900)
+        rb = sh("cmake -S %s -B %s/b -G Ninja -DCMAKE_BUILD_TYPE=RelWithDebInfo -DUNIT_TESTING=ON >/dev/null && cmake --build %s/b 2>&1 | tail -3" % (wt, bdir, bdir), timeout=900)
         meta["steps"]["build"] = rb.returncode
         failed, tail = ctest_failures(bdir + "/b")
         meta["steps"]["ctest_failed"] = sorted(failed)
@@ -80,13 +80,14 @@ def cmd_verify(prop, src, name):
     os.makedirs(d, exist_ok=True)
     for f in os.listdir(src):
         if f in ("patch.diff", "demo.c", "run.sh", "README.md") or f.endswith((".c", ".h", ".sh")):
-            shutil.copy(os.path.join(src, f), os.path.join(d, f))
+            if os.path.abspath(src) != os.path.abspath(d):
+                shutil.copy(os.path.join(src, f), os.path.join(d, f))
     readme = os.path.join(src, "README.md")
     needs = ""
     if os.path.exists(readme):
         needs = open(readme).read()[:1500]
     meta["what_it_needs_to_manifest"] = needs
-    meta["what_was_run"] = "demo (run.sh) on a clean worktree of /repo HEAD: exit %s; git apply patch.diff; cmake+ninja build; ctest (failed: %s); demo again: exit %s" % (
+    meta["what_was_run"] = "demo (run.sh) on a clean worktree of /repo HEAD: exit %s; git apply patch.diff; cmake -DUNIT_TESTING=ON + ninja build; ctest (failed: %s); demo again: exit %s" % (
         meta["steps"]["demo_clean_exit"], meta["steps"]["ctest_failed"], meta["steps"]["demo_changed_exit"])
     json.dump(meta, open(os.path.join(d, "meta.json"), "w"), indent=1)
     print("CONFIRMED and stored: %s" % d)
@@ -171,6 +172,7 @@ def cmd_verify_refactor(src, name):
         os.makedirs(d, exist_ok=True)
         for f in ("patch.diff", "README.md"):
             if os.path.exists(os.path.join(src, f)):
+                if os.path.abspath(src) != os.path.abspath(d):
                 shutil.copy(os.path.join(src, f), os.path.join(d, f))
         meta["what_was_run"] = "git apply on a worktree of /repo HEAD; cmake -DUNIT_TESTING=ON + ninja; ctest (failed: %s)" % sorted(failed)
         json.dump(meta, open(os.path.join(d, "meta.json"), "w"), indent=1)
@@ -226,6 +228,13 @@ if __name__ == "__main__":
         sys.exit(cmd_verify_refactor(sys.argv[2], sys.argv[3]))
     if sys.argv[1] == "run-refactors":
         sys.exit(cmd_run_refactors(sys.argv[2]))
+    if sys.argv[1] == "reverify":
+        names = sorted(os.listdir(SEEDED)) if sys.argv[2] == "all" else [sys.argv[2]]
+        rc = 0
+        for n in names:
+            prop = json.load(open(os.path.join(SEEDED, n, "meta.json")))["property"]
+            rc |= cmd_verify(prop, os.path.join(SEEDED, n), n)
+        sys.exit(rc)
     if sys.argv[1] == "verify":
         sys.exit(cmd_verify(sys.argv[2], sys.argv[3], sys.argv[4]))
     if sys.argv[1] == "run":
